@@ -244,6 +244,93 @@ def run_real(sc, acts):
         shutil.rmtree(root, ignore_errors=True)
 
 
+def second_chance_freshness(ctx):
+    """A call that STARTS after the file was rewritten (one whole second or more after the cached version was compiled) must not get
+    the old version.  Thread A is parked just before it stores the template it compiled; the clock moves on and the file is
+    rewritten; thread B starts only then, waits for the mutex, and is served by the second look into the collection inside _load."""
+    from mako import lookup as mlookup
+    from mako.template import Template
+    root = os.path.realpath(tempfile.mkdtemp(prefix="c16f_"))
+    _root[0] = root
+    _sim["on"] = True
+    try:
+        fn = os.path.join(root, "n1.html")
+
+        def write(ver, sec):
+            with open(fn, "w") as f:
+                f.write("v%d" % ver)
+            os.utime(fn, (EPOCH + sec, EPOCH + sec))
+        _sim["ms"] = 2000
+        write(1, 2)
+        _sim["ms"] = 5000
+        drv = Driver([0, 1])
+        _drv[0] = drv
+
+        class T2(Template):
+            def __init__(self, *a, **k):
+                drv.point("construct")
+                drv.tls.in_construct = True
+                try:
+                    Template.__init__(self, *a, **k)
+                finally:
+                    drv.tls.in_construct = False
+        orig = mlookup.Template
+        mlookup.Template = T2
+        try:
+            lk = mlookup.TemplateLookup(directories=[root], filesystem_checks=True)
+            coll = SchedDict()
+            coll.driver = drv
+            lk._collection = coll
+            lk._mutex = SchedLock(drv)
+            res = {}
+
+            def work(tid):
+                drv.tls.tid = tid
+                try:
+                    t = lk.get_template("/n1.html")
+                    res[tid] = (t.render(), t.module._modified_time - EPOCH)
+                except BaseException as e:  # noqa
+                    res[tid] = ("raised " + type(e).__name__, None)
+                finally:
+                    drv.finished()
+            ta = threading.Thread(target=work, args=(0,), daemon=True)
+            ta.start()
+            for _ in range(40):
+                k = drv.step(0)
+                with drv.cv:
+                    parked_at = drv.kind[0] if drv.state[0] == "parked" else None
+                if parked_at == "set" or k == "done":
+                    break
+            # A holds the mutex and has compiled version 1 at second 5; now second 8: the file is rewritten
+            _sim["ms"] = 8000
+            write(5, 8)
+            tb = threading.Thread(target=work, args=(1,), daemon=True)
+            tb.start()
+            for _ in range(60):
+                for tid in (1, 0):
+                    drv.step(tid)
+                if drv.all_done():
+                    break
+            drv.release_all()
+            ta.join(5)
+            tb.join(5)
+        finally:
+            mlookup.Template = orig
+        ctx.evaluations += 1
+        ctx.nontrivial.add(("second-chance-freshness",))
+        rb = res.get(1)
+        if rb is not None and rb[0] == "v1":
+            ctx.violation({"scenario": "thread A compiles version 1 at second 5 and is parked before storing it; at second 8 the file is rewritten (version 5); thread B starts after that",
+                           "thread_B_got": rb[0], "compiled_at_second": rb[1], "file_mtime_second": 8, "thread_A_got": res.get(0, ("?",))[0]},
+                          "a call that started after the file was rewritten (>= 1 s after the compile) was served the old version by the second look into the collection inside _load",
+                          tags=["c16.fresh.second-chance"])
+    finally:
+        _drv[0] = None
+        _root[0] = None
+        _sim["on"] = False
+        shutil.rmtree(root, ignore_errors=True)
+
+
 def model_line(sc, acts):
     name, checks, files, threads, warm, env = sc
     fl = ",".join("%d %d 2 %d" % (u, v, 1 if ok else 0) for u, (v, ok) in files.items())
@@ -559,6 +646,7 @@ def run(ctx):
             k = r.split(":", 1)[1].split()[0]
             ctx.dist["results"][k] = ctx.dist["results"].get(k, 0) + 1
     ctx.generators["schedules"] = {"scenarios": [s[0] for s in SCENARIOS], "per_scenario": per}
+    second_chance_freshness(ctx)
     disagreements = []
     if model_ok:
         for (sc, acts), o, m in zip(cases, obs_all, common.run_driver(PROP, lines)):
